@@ -54,7 +54,7 @@ func init() {
 
 	addProp(&PropSpec{
 		ID:    "C19",
-		Rules: []string{"R-IMMUT-AST", "R-GLOBALS", "R-EXECFRESH", "R-AMBIENT", "R-INPUT-RO", "R-COLLGUARD", "R-VARSIDENT", "R-STATE"},
+		Rules: []string{"R-IMMUT-AST", "R-GLOBALS", "R-EXECFRESH", "R-AMBIENT", "R-INPUT-RO", "R-COLLGUARD", "R-VARSIDENT", "R-STATE", "R-VALUETYPES"},
 		Explanation: "Static form of data-race freedom and history independence: absence of shared writable state. " +
 			"Decided over every function reachable (VTA call graph, through dependencies) from every read operation of a Path and from Parse: " +
 			"no write to memory owned by a parsed AST, no write to package-level state, a fresh Executor per call that never escapes, no ambient input. " +
@@ -92,7 +92,7 @@ func init() {
 	register(rulePanicParse, ruleParseResult)
 	addProp(&PropSpec{
 		ID:          "C04",
-		Rules:       []string{"R-PANIC-PARSE", "R-PARSE-RESULT", "R-NILNODE", "R-REGEXFLAGS", "R-VALIDATE", "R-COMMENT", "R-TOKENRANGE", "R-CHARCLASS", "R-ERRDISCARD", "R-NILOUT"},
+		Rules:       []string{"R-PANIC-PARSE", "R-PARSE-RESULT", "R-NILNODE", "R-REGEXFLAGS", "R-VALIDATE", "R-COMMENT", "R-TOKENRANGE", "R-CHARCLASS", "R-NARROW", "R-ERRDISCARD", "R-NILOUT"},
 		Explanation: "Totality of Parse as a shape of the code: every construct that can raise a panic explicitly below Parse/Scan/Unmarshal* is enumerated over the call graph and must be contained by a recovering root that returns the documented error.",
 		Decided:     []string{"R-PANIC-PARSE: explicit panics, Must* calls and comma-less type assertions below the parse roots are contained by a deferred recover in parser.Parse that reports ErrParse", "R-PARSE-RESULT: (tree, nil) or (nil, sentinel-wrapped error) at every level; MustParse panics exactly on the error branch", "R-NILNODE: no action publishes a nil node without recording an error", "R-REGEXFLAGS: every like_regex accepted at parse time compiles at execution time (flag translation for all 32 flag sets; same pattern and flags validated, stored, compiled; the validator accepts only after regexp/syntax.Parse succeeded)", "R-VALIDATE: `@` outside a filter and `last` outside a subscript are rejected, and accepted inside: decision table of the placement validator over node kind × depth × in-subscript, for every recursive call on every path"},
 		NotDecided:  []string{"termination of the lexer loops", "the goyacc runtime (trusted)", "size limits of regexp compilation"},
@@ -104,7 +104,7 @@ func init() {
 	register(ruleState, ruleStateVerbose, ruleInitOnly, ruleScope)
 	addProp(&PropSpec{
 		ID:    "C09",
-		Rules: []string{"R-STATE", "R-INITONLY", "R-SCOPE", "R-ONELEVEL", "R-LAST", "R-EXECADDR", "R-EMITORDER", "R-COLLMONO", "R-NEXTBLIND", "R-FAILSTOP", "R-PAIR-P", "R-FILTER", "R-UNWRAPTHREAD"},
+		Rules: []string{"R-STATE", "R-INITONLY", "R-SCOPE", "R-ONELEVEL", "R-LAST", "R-EXECADDR", "R-EMITORDER", "R-COLLMONO", "R-NEXTBLIND", "R-FAILSTOP", "R-PAIR-P", "R-FILTER", "R-UNWRAPTHREAD", "R-VALUETYPES", "R-SCRATCHSTATUS"},
 		Explanation: "The 'context intact' clause of C09 as a typestate over the Executor's fields: every function that overwrites @ (current), the innermost array size, the base object or the structural-error flag loads the previous value first and writes it back on every exit path, error exits included; `$`, variables, options and the path are written only before evaluation starts. " +
 			"Decides the structural necessary condition (no leak of a nested context); does not decide the concatenation equation itself.",
 		Decided:     []string{"R-STATE: save/restore on every exit for each mutated context field (defer literal, restorer helper deferred at each call site, or explicit stores)", "R-INITONLY: `$`/vars/useTZ/path fixed during evaluation", "R-SCOPE: while @ is rebound no status-returning evaluation receives the step's own node (the rest of the outer chain sees the outer @)"},
@@ -182,7 +182,7 @@ func init() {
 	})
 	addProp(&PropSpec{
 		ID:          "C02",
-		Rules:       []string{"R-ESC", "R-PAREN", "R-OPPAREN", "R-PREC", "R-VOCAB", "R-OPTOKENS", "R-MARSHAL", "R-PARSE-RESULT", "R-RUNEWRITE", "R-RUNESTEP", "R-RUNEERR", "R-UNMARSHAL-ID", "R-FMTCONST", "R-NUMCLASS", "R-NARROW"},
+		Rules:       []string{"R-ESC", "R-PAREN", "R-OPPAREN", "R-PREC", "R-VOCAB", "R-OPTOKENS", "R-MARSHAL", "R-PARSE-RESULT", "R-RUNEWRITE", "R-RUNESTEP", "R-RUNEERR", "R-UNMARSHAL-ID", "R-FMTCONST", "R-NUMCLASS", "R-NARROW", "R-ERRDISCARD"},
 		Explanation: "Necessary conditions of Parse(p.String()) = p that are visible in the shape of the printer and the lexer: every escape the printer can emit is decoded to the same code point; printed keywords lead back to the same constants; the printer's priorities equal the grammar's precedence levels; a node that can only carry an accessor chain inside parentheses prints those parentheses; the three marshalling forms are exactly String() and the unmarshalling forms hand their whole input to Parse.",
 		Decided: []string{"R-ESC: printer escape table ⊆ lexer escape table with equal meaning", "R-PAREN: parenthesisation before a trailing accessor chain (today: 6 known findings, D16)", "R-PREC: priority table = grammar levels",
 			"R-VOCAB: keyword vocabulary", "R-MARSHAL / R-PARSE-RESULT: Marshal* = String(), Unmarshal*/Scan = Parse of the whole input"},
